@@ -173,6 +173,10 @@ pub enum WEnd {
     Drop,
     FlushThenDrop,
     FlushTwiceThenIntoInner,
+    /// unwrap a counting wrapper with `into_inner()` (nothing to unwrap on a bare writer), write the
+    /// 4-bit sentinel 0b1011 on the writer that comes out, then `into_inner()`: unwrapping must not
+    /// disturb the stream (no flush, no padding). Not in `ALL`: used by C14 only.
+    UnwrapThenWrite,
 }
 
 impl WEnd {
@@ -184,6 +188,9 @@ pub enum WWrap {
     None,
     Count,
     Dbg,
+    /// CountBitWriter<_, _, true> (the variant that also prints every operation); always over an owned
+    /// growable vector, whatever `backend` says
+    CountPrint,
 }
 
 #[derive(Clone, Copy, PartialEq, Eq, Hash, Debug, Serialize, Deserialize, PartialOrd, Ord)]
@@ -270,6 +277,9 @@ pub enum RWrap {
     None,
     Count,
     Dbg,
+    /// CountBitReader<_, _, true> (the variant that also prints every operation); always over an owned
+    /// zero-extended memory reader, whatever `backend` says
+    CountPrint,
 }
 
 #[derive(Clone, Copy, PartialEq, Eq, Hash, Debug, Serialize, Deserialize, PartialOrd, Ord)]
@@ -292,6 +302,7 @@ impl RCfg {
             RWrap::None => "",
             RWrap::Count => "/count",
             RWrap::Dbg => "/dbg",
+            RWrap::CountPrint => "/countprint",
         })
     }
 }
@@ -302,6 +313,7 @@ impl WCfg {
             WWrap::None => "",
             WWrap::Count => "/count",
             WWrap::Dbg => "/dbg",
+            WWrap::CountPrint => "/countprint",
         })
     }
 }
